@@ -311,7 +311,7 @@ fn run_items(spec: &SeqSpec, items: &[Vec<Op>], col: &Collector, workers: usize,
                             (spec2.oracle)(&sub, &mut findings);
                             for c in sub.calls.iter().skip(upto - 1) {
                                 if let Res::Panicked(m) = &c.res {
-                                    findings.push(Finding::new("caller-panic", format!("panic:{}", super::ilv::normalize_panic(m)), format!("{} panicked on the caller's thread: {}", c.op.short(), m)));
+                                    findings.push(Finding::new("caller-panic", caller_panic_signature(c, m), format!("{} panicked on the caller's thread: {}", c.op.short(), m)));
                                 }
                             }
                             nf += findings.len();
